@@ -363,6 +363,7 @@ extra_fixed!(usize, 2);
 extra_fixed!(u128, 3);
 extra_fixed!(u64, 5);
 extra_fixed!(u16, 4);
+extra_fixed!(u8, 0);
 
 macro_rules! extra_dyn {
     ($ty:ty) => {
